@@ -77,7 +77,7 @@ def gen(wt, outdir, per_file, seed=20261003, skip_index=None, files=None):
     tried = set()
     if skip_index and os.path.exists(skip_index):
         tried = {(m["file"], m["line"]) for m in json.load(open(skip_index))}
-    n = 100 if tried else 0
+    n = (200 if seed == 11 else 100) if tried else 0
     for f in (files or FILES):
         path = os.path.join(wt, f)
         text = open(path).read()
@@ -147,5 +147,9 @@ if __name__ == "__main__":
         # second batch: other sites (those of the first index are skipped), behaviour files only
         gen(sys.argv[2], sys.argv[3], int(sys.argv[4]), seed=7, skip_index=sys.argv[5],
             files=[f for f in FILES if f not in ("src/geo/astro.rs", "src/angle.rs", "src/lib.rs")])
+    elif sys.argv[1] == "gen3":
+        gen(sys.argv[2], sys.argv[3], int(sys.argv[4]), seed=11, skip_index=sys.argv[5],
+            files=["src/prayer_times/ext_lat.rs", "src/prayer_times/hours.rs", "src/prayer_times/mod.rs", "src/prayer_times/date.rs",
+                   "src/hijri_date.rs", "src/main.rs", "src/geo/qibla.rs"])
     else:
         run(sys.argv[2], set(sys.argv[3:]) or None)
